@@ -84,6 +84,7 @@ type Result struct {
 	// was incomplete in a way compress/flate rejects at header time, i.e. it
 	// had at least one code, Kraft sum < 1, and was not a single code of
 	// length 1. (Empty trees and single 1-bit codes are tolerated by stdlib.)
+	NoEOB      bool // LazyEOB: some dynamic block had no end-of-block code
 	Incomplete bool
 }
 
@@ -92,6 +93,10 @@ type Options struct {
 	Dict   []byte      // preset dictionary (history before output position 0); may be nil
 	OnTok  func(Token) // optional callback for every token decoded
 	MaxOut int         // 0 = unlimited; otherwise producing more stops with State "corrupt", Err "output-limit"
+	// LazyEOB: do not reject a dynamic block without an end-of-block code when
+	// its header is parsed (it can never end, but its symbols are decodable):
+	// keep decoding as compress/flate does and set Result.NoEOB.
+	LazyEOB bool
 }
 
 // RFC 1951 3.2.5 tables.
@@ -426,7 +431,10 @@ func (d *decoder) dynamicHeader() (lt, dt *tree, ok bool) {
 	}
 	d.res.Incomplete = d.res.Incomplete || lt.incomplete() || dt.incomplete()
 	if lens[256] == 0 {
-		return nil, nil, d.corrupt(DefectNoEOB)
+		if !d.opt.LazyEOB {
+			return nil, nil, d.corrupt(DefectNoEOB)
+		}
+		d.res.NoEOB = true
 	}
 	return lt, dt, true
 }
